@@ -21,7 +21,7 @@ if ! ( cd $W && git apply $out/patch.diff 2>/dev/null ); then
   if ( cd $W && git apply --3way $out/patch.diff >/dev/null 2>&1 && git reset -q ); then
     ( cd $W && git diff ) > $out/patch.rebased.diff
     echo "patch carried over to the current /repo with a three-way merge (patch.rebased.diff)" | tee -a $res
-  elif [ -f $out/patch.rebased.diff ] && ( cd $W && git checkout -q . && git apply $out/patch.rebased.diff 2>/dev/null ); then
+  elif [ -f $out/patch.rebased.diff ] && ( cd $W && git reset -q --hard && git apply $out/patch.rebased.diff 2>/dev/null ); then
     echo "patch carried over to the current /repo by hand (patch.rebased.diff)" | tee -a $res
   else
     echo "PATCH DOES NOT APPLY (not even three-way)" | tee -a $res; exit 1
